@@ -21,11 +21,14 @@ FILES = {
     # rules whose documentation links are special-cased (B304/B305, B313-B320), twice each, and nosec comments by rule name
     "d.py": ("import xml.etree.cElementTree as CET\nimport xml.etree.ElementTree as ET\nCET.fromstring(x)\nET.fromstring(y)\nCET.parse(z)\n"
              "ET.parse(w)  # nosec xml_bad_ElementTree\nfrom Crypto.Cipher import ARC2\nARC2.new(k)\nARC2.new(j)\n"
-             "import telnetlib  # nosec import_telnetlib\nimport ftplib  # nosec import_telnetlib\n"),
+             "import telnetlib  # nosec import_telnetlib\nimport ftplib  # nosec import_telnetlib\n"
+             # a comment naming one rule by an underscored name on a line with a second finding it does not name
+             "import tempfile, os\ntempfile.mktemp()\nos.system(tempfile.mktemp())  # nosec mktemp_q\n"
+             "eval(pickle.loads(z))  # nosec import_pickle\n"),
 }
 CONFIGS = [None, {"hardcoded_tmp_directory": {"tmp_dirs": ["/var/data"]}},
            {"shell_injection": {"subprocess": ["myspawn"], "shell": [], "no_shell": []}}]
-SELECTIONS = [None, ["B301"], ["B302"], ["B108", "B602", "B603"], ["B313", "B314", "B304", "B401", "B402"]]
+SELECTIONS = [None, ["B301"], ["B302"], ["B108", "B602", "B603"], ["B313", "B314", "B304", "B401", "B402"], ["B306", "B605", "B307", "B301"]]
 
 
 def render(m):
